@@ -64,7 +64,22 @@ def build(types, defined=()):
         if plain in text:
             text = text.replace(plain, "pub struct %s {\n    pub a: i32,\n    pub via: OnlyVia%s,\n}" % (n, n), 1)
             text += rg.struct_src("OnlyVia" + n, [("deep", "i32")])
+    # the same payload types once more, this time carried by an annotated local whose initialiser is a call on some other path
+    # (`let at: DateTime<Utc> = Utc::now();`): the annotation is the payload's type, whatever produces the value
+    for (i, t) in types:
+        text += "pub fn evl_%d(app: AppHandle) {\n    let y: %s = %s;\n    app.emit(\"l%d\", y).unwrap();\n}\n\n" % (i, rg.rust(t), LET_INITS[i % len(LET_INITS)], i)
     return [(files[0][0], text + OTHERS)]
+
+
+LET_INITS = ["Default::default()", "Utc::now()", "Vec::new()", "std::env::temp_dir()", "HashMap::with_capacity(4)", "store::load(&app)", "Builder::new().build()",
+             "Uuid::new_v4()", "make()", "Decimal::from(3)"]
+
+
+def _pshow(p):
+    try:
+        return sh.show(sh.ts_shape(p))
+    except Exception:
+        return repr(p)[:120]
 
 
 def id_tokens(text):
@@ -76,7 +91,7 @@ def is_probe_decl(chunk, mapped=()):
     """declarations that belong to the N-sites (F<i>, Cmd<i>Params[Schema], cmd<i>, onE<i>) or declare a mapped name itself"""
     import re
     for tok in chunk[:6]:
-        if re.fullmatch(r"(F\d+(Schema)?|Cmd\d+Params(Schema)?|cmd\d+|onE\d+)", tok):
+        if re.fullmatch(r"(F\d+(Schema)?|Cmd\d+Params(Schema)?|cmd\d+|onE\d+|onL\d+)", tok):
             return True
         if tok in mapped or (tok.endswith("Schema") and tok[:-6] in mapped):
             return True
@@ -112,6 +127,18 @@ def run_case(a):
                 continue
             viol.append(("C18 mapped-position %s %s %s -> %s" % (mode, site, rg.skeleton(tmap[i]), sh.shape_skeleton(got) if got else "unusable"),
                          "%s site, %s mode, mapping %s: `%s` should read as %s but the output has %s %s" % (site, mode, table, rg.rust(tmap[i]), sh.show(rg.M(t2)), sh.show(got) if got else "<nothing usable>", note), i))
+        # (1b) an annotated local carries the annotation's type: its listener must read exactly like the parameter-typed one
+        lst = {l["event"]: l for l in oa.listeners() if l["event"]}
+        let_sites = 0
+        for (i, t) in types:
+            le, ll = lst.get("e%d" % i), lst.get("l%d" % i)
+            if le is None or le["payload"] is None:
+                continue
+            let_sites += 1
+            if ll is None or ll["payload"] != le["payload"]:
+                viol.append(("C18 mapped-position %s event-annotated-let %s" % (mode, rg.skeleton(tmap[i])),
+                             "%s mode, mapping %s: payload `let y: %s = %s` has listener payload %s, the parameter-typed payload of the same type has %s" % (
+                                 mode, table, rg.rust(tmap[i]), LET_INITS[i % len(LET_INITS)], _pshow(ll["payload"]) if ll and ll["payload"] is not None else "<no listener>", _pshow(le["payload"])), i))
         # (2) no trace of the mapped names
         forbidden = set()
         for n in table:
@@ -186,7 +213,7 @@ def run_case(a):
                         viol.append(("C18 build-script-output-differs-from-cli mode=%s" % mode, "types.ts written by generate_at_build_time differs from the CLI's for the same table %s" % table, None))
             finally:
                 common.rmtree(broot)
-        return {"viol": viol, "ok": ok, "n": len(obs), "files": files}
+        return {"viol": viol, "ok": ok, "n": len(obs), "files": files, "let_sites": let_sites}
     finally:
         ga.cleanup()
         gb.cleanup()
@@ -294,6 +321,7 @@ def run(tier):
         if defined:
             v.count("projects_that_also_define_the_mapped_names")
         v.count("mapped_positions_ok", r["ok"])
+        v.count("annotated_let_event_sites_compared", r.get("let_sites", 0))
         tm = dict(ets)
         for (sig, what, i) in r["viol"]:
             wit = proj.witness_of(build([(i, tm[i])], defined) if i is not None else r["files"], mode, config={"type_mappings": table})
